@@ -95,7 +95,7 @@ func runC15(c *Ctx, r *Report) {
 		}
 		return true
 	})
-	r.Floor("R-C15.3", "bound-hash lookups in Iterator", len(okVars), 3)
+	r.Floor("R-C15.3", "bound-hash lookups in Iterator", len(okVars), 1)
 	mf := &Flow{P: p, Fn: it, May: true, Entry: Facts{}}
 	mf.Edge = func(cond ast.Expr, taken bool, f Facts) {
 		for _, a := range splitCond(cond, taken) {
